@@ -377,9 +377,9 @@ class Interp:
             env[params.vararg.arg] = tuple(args[len(pos):])
         return env
 
-    def call_function(self, fn, args, kwargs, defcls=None):
+    def call_function(self, fn, args, kwargs, defcls=None, ignore_contract=False):
         qn = fn.__module__ + "." + fn.__qualname__
-        if qn in self.contracts:
+        if qn in self.contracts and not ignore_contract:
             return self.contracts[qn](self, *args, **kwargs)
         node = self.get_ast(fn)
         env = self.bind_args(node, fn.__qualname__, args, kwargs, Frame(fn, {}, defcls))
